@@ -10,7 +10,13 @@ UNITS = {
   # reallocAligned real (frontend.cpp only: getBackRef / remap / getMaxBinnedSize are externals); inner allocator and free cut
   'realloc': dict(wrapper='w_realloc.cpp', mode='seq', cxxflags=MCXX, ptrhooks=True, prune=True, inline_threshold=200,
                   cut=['internalPoolMalloc', 'allocateAligned', 'internalPoolFree', 'doInitialization']),
+  # scalable_calloc + internalMalloc real; allocator below cut at internalPoolMalloc; memset observed by the harness
+  'calloc': dict(wrapper='w_calloc.cpp', mode='seq', cxxflags=MCXX, prune=True, selftest=True, selftest_stubs='selftest_stubs_calloc.c',
+                 cut=['internalPoolMalloc', 'doInitialization', 'getFromLLOCache', 'StartupBlock8allocate']),
 }
+CALLOC_F = ['0', '1', '2', '3', '0x10000', '0x80000000', '0xffffffff', '0x100000000', '0x100000001', '0x200000000', '0x8000000000000000', '0xffffffffffffffff']
+def calloc_sc(order, fs=CALLOC_F):
+  return [dict({'ORDER': order, 'F': f + 'ULL'}, **({'OVF': None} if int(f, 16) >= 2 else {})) for f in fs]
 HARNESSES = [
   dict(name='sizeclass', unit='front', harness='h_sizeclass.c', cbmc=['--unwind', '40'], scenarios=[{'PART': 1}, {'PART': 2}, {'PART': 3, 'CLASSES': ','.join(map(str, CLASSES))}],
        desc='getObjectSize/getIndex over every request size 1..8128 (symbolic): size fits, 16-byte classes (8 for <=8), class closed, monotone, index in range',
@@ -35,6 +41,8 @@ HARNESSES = [
        desc='reallocAligned one step: in-place decision for large objects (room measured from the USER pointer to the end of the backend block, alignment, huge-object halving rule) and slab objects (findObjectSize): same pointer => new size fits, headers intact, msize consistent; new block => one allocation, exactly min(old usable,new) bytes copied from the old pointer, old block freed once after the copy; failure => NULL, old object untouched',
        bounds={'newSize': 'full 64 bit', 'alignment': '0 or 2^0..2^63', 'large': 'unalignedSize < 2^60, objectSize and cache-line shuffle offset symbolic, block address symbolic', 'slab': 'every size class (symbolic), every object position, interior 128-aligned pointers for fitting classes',
                'cut': 'internalPoolMalloc, allocateAligned, internalPoolFree; stubs: remap, getMaxBinnedSize, getBackRef; memcpy observer'}),
+  dict(name='calloc_arith', unit='calloc', harness='h_calloc.c', defines={'NOSPUR': None}, scenarios=calloc_sc(0) + calloc_sc(1), timeout=600, cbmc=['--unwind', '4', '--external-sat-solver', 'kissat'],
+       desc='TODO', bounds={}),
 ]
 MANIFEST = dict(
   level_text='Bounded symbolic execution of the real tbbmalloc front-end kernels: size-class functions for every request size; one inductive step of the slab (Block) operations from an arbitrary state satisfying the representation invariant, for every size class; allocateAligned strategy selection for symbolic size/alignment with the inner allocator cut to its contract; reallocAligned in-place / copy / free decision (large and slab objects) as one step; cross-thread free of slab objects (freePublicObject || owner privatisation / orphan adoption) on one block under all bounded interleavings of 2-3 threads. Sequential call histories are covered by the inductive-step argument, not by exploration.',
